@@ -40,6 +40,14 @@ func c14HeaderGet(e ast.Expr) (string, bool) {
 		return "", false
 	}
 	sel, ok := call.Fun.(*ast.SelectorExpr)
+	if ok && sel.Sel.Name == "ContentEncoding" {
+		// compress.ContentEncoding(resp.Header): the Content-Encoding field lines as one value
+		// (fixes/C14-7) - the same fact: this expression reads the response's Content-Encoding
+		if hs, ok := call.Args[0].(*ast.SelectorExpr); ok && hs.Sel.Name == "Header" {
+			return "Content-Encoding", true
+		}
+		return "", false
+	}
 	if !ok || sel.Sel.Name != "Get" {
 		return "", false
 	}
